@@ -98,6 +98,7 @@ def main(tier):
         res = common.run_forked(js, dav_driver.run_job, timeout=1200)
         traces = []
         energies = {}
+        n_indep, worst_indep = 0, 0.0
         for j, rr in zip(js, res):
             fields = dict(method=j["method"], reuse=j["reuse"], batch=len(j["mols"]), hetero=len(set(j["mols"])) > 1, capped=bool(j.get("max_iter")))
             if not rr.get("ok"):
@@ -126,6 +127,11 @@ def main(tier):
                 rep.violation("amplitudes_not_orthonormal", {"job": j, "rpa_norm_dev": o["rpa_norm_dev"]}, **fields)
             if "residual" in o and o["residual"] > 10 * tol:
                 rep.violation("residual_above_tolerance", {"job": j, "residual": o["residual"], "tol": tol}, **fields)
+            if "apb_independent_dev" in o:
+                n_indep += 1
+                worst_indep = max(worst_indep, o["apb_independent_dev"])
+                if o["apb_independent_dev"] > 1e-9:
+                    rep.violation("response_matrix_differs_from_scf_hamiltonian", {"job": j, "relative_deviation_of_A_plus_B": o["apb_independent_dev"]}, **fields)
             if "window_ref" in o:
                 for m, (E, D) in enumerate(zip(o["energies"], o["window_ref"])):
                     if max(abs(a - b) for a, b in zip(E, D)) > 10 * tol:
@@ -223,10 +229,10 @@ def main(tier):
         cov = {
             "states": r.distinct + tr.distinct, "transitions": r.generated + tr.generated, "traces_validated_against_impl": len(comp), "traces_accepted": n_acc,
             "samples": [{"job": jobby[t["job"]], "events": t["ev"][:2]} for t in comp[:2]] or [{"note": "none"}],
-            "stagnation_exits_observed": n_stag, "subspace_collapses_observed": sum(1 for t in comp for e in t["ev"] if e.get("name") == "iter" and any(e.get("collapsed") or [])), "repository_test_executions": repo_info, "relational_comparisons": n_rel, "jobs": len(js),
+            "stagnation_exits_observed": n_stag, "independent_A_plus_B_comparisons": n_indep, "independent_A_plus_B_worst_relative_deviation": worst_indep, "subspace_collapses_observed": sum(1 for t in comp for e in t["ev"] if e.get("name") == "iter" and any(e.get("collapsed") or [])), "repository_test_executions": repo_info, "relational_comparisons": n_rel, "jobs": len(js),
             "evaluations": len(js), "distinct_nontrivial": len([j for j in js if j["nroots"] > 1 or len(j["mols"]) > 1 or j["reuse"]]),
             "rule": "jobs molecule/batch x number of roots x tolerance x amplitude reuse x CIS/RPA; non-trivial = several roots, a batch or amplitude reuse", "exhaustive": tier == "thorough",
         }
-        return rep.finish(cov, assumptions=["dense reference matrix assembled with the code's own sigma routine (nov <= 40)", "RPA and heterogeneous-batch solvers have no hooks: API-level predicates only (RPA: residual of both coupled equations, X.X - Y.Y = 1, dense (A-B)(A+B) spectrum)"])
+        return rep.finish(cov, assumptions=["dense reference matrices assembled with the code's own sigma routine (nov <= 40); their sum A+B is additionally rebuilt from the SCF Fock builder (independent of the response code), A-B is not", "RPA and heterogeneous-batch solvers have no hooks: API-level predicates only (RPA: residual of both coupled equations, X.X - Y.Y = 1, dense (A-B)(A+B) spectrum)"])
     finally:
         common.rm(scratch)
